@@ -65,6 +65,12 @@ impl InputVariant {
             }
         };
 
+        // Only unit, newtype and struct variants can be represented; a skipped variant is
+        // never constructed, so its shape does not matter.
+        if starter.data.is_tuple() && starter.data.len() != 1 && !starter.skip.unwrap_or_default() {
+            return Err(super::unsupported_tuple_error().with_span(&v.fields));
+        }
+
         Ok(if let Some(p) = parent {
             starter.with_inherited(p)
         } else {
